@@ -92,7 +92,8 @@ func (e *StorageEngine) get(addr oid.Address, shardFunc func(s *shard.Shard, ign
 			case
 				errors.Is(err, ierrors.ErrParentObject),
 				errors.Is(err, apistatus.ErrObjectAlreadyRemoved),
-				errors.Is(err, apistatus.ErrObjectOutOfRange):
+				errors.Is(err, apistatus.ErrObjectOutOfRange),
+				errors.Is(err, apistatus.ErrObjectAccessDenied): // header interceptor's verdict: not a shard failure
 				return err // stop, return it back
 			case shard.IsErrObjectExpired(err):
 				// object is found but should not
